@@ -408,7 +408,7 @@ impl Drop for GetStaller {
 
 fn run_point_inner(p: &FaultPoint) -> Result<FaultInfo, String> {
     let case = &p.case;
-    raindb::verif::set_level_base_bytes(crate::engine::level_base_for(&case.cfg));
+    crate::engine::set_level_limits(crate::engine::level_code_for(&case.cfg));
     let _staller = if p.dircheck { Some(GetStaller::install()) } else { None };
     let mem = Arc::new(MemFs::new(false));
     let ffs = Arc::new(FaultFs::new(mem.clone()));
